@@ -321,10 +321,6 @@ def run(ctx, only_extra=False):
                 ctx.broken_explained_by_known = True
     if not (seen - {"C08:seq-collision-opposite-directions"}):
         ctx.obligation("oracle: pairing, |Phi+> state, measure-directly outcomes, per-direction sequence numbers, halves survive the creator's stop", True)
-    try:
-        from props import c12_e2e
-        c12_e2e.extra(ctx, env)
-    except ImportError:
-        pass
+    # (the end-to-end half of C12 runs under ./check C12, see props/c12.py)
     if not agree and not found and not seen:
         ctx.report("correspondence:C08", "keyed sequence/FIFO model and implementation disagree", {"broken": ctx.broken()}, found_input=False)
